@@ -53,12 +53,12 @@ def build_driver(timeout=900):
     d = os.path.join(BUILD, "extract")
     os.makedirs(d, exist_ok=True)
     with common.locked("extract"):
-        ok, out = common.coq_make(["theories/Gen/Exec.vo", "theories/Spec/Exec.vo"], timeout=timeout)
+        ok, out = common.coq_make(["theories/Gen/Run.vo", "theories/Spec/Exec.vo"], timeout=timeout)
         if not ok:
             raise RuntimeError("building Gen/Spec failed:\n" + out[-3000:])
         # stamp: rebuild only when inputs changed
         hsh = hashlib.sha256()
-        for f in ["theories/Gen/Exec.vo", "theories/Gen/Funcs.vo", "theories/Gen/Mem.vo", "theories/Spec/Exec.vo",
+        for f in ["theories/Gen/Exec.vo", "theories/Gen/Run.vo", "theories/Gen/Funcs.vo", "theories/Gen/Mem.vo", "theories/Spec/Exec.vo",
                   "theories/Spec/Flags.vo", "theories/Spec/Instr.vo", "extract/Extract.v", "extract/driver.ml"]:
             hsh.update(open(os.path.join(COQ, f), "rb").read())
         stamp = os.path.join(d, "stamp")
@@ -87,6 +87,7 @@ let gPR_SetFlag (g : gPR) (_ : z) : gPR = failwith "gen"
 let gPR_ResetFlag (g : gPR) (_ : z) : gPR = failwith "gen"
 let register_SetU16 (r : register) (_ : z) : register = failwith "gen"
 let register_U16 (_ : register) : z = failwith "gen"
+let run_enter (c : cPU) : cPU = set_CPU_HALT c false
 """
 
 
